@@ -6,15 +6,15 @@ CONSTANTS
   TDiscWait = 5
   TDiscResp = 10
   TCall = 10
-  Configs <- ConnectConfigs
-  MaxEnv = 7
-  MaxFaults = 2
-  Msgs <- ConnectMsgs
+  Configs <- CallConfigsNoHist
+  MaxEnv = 3
+  MaxFaults = 1
+  Msgs <- CallMsgsBig
   MaxChunk = 2
-  UseCalls = FALSE
+  UseCalls = TRUE
   UseSubs = FALSE
   GenMode = TRUE
-  StartConnected = FALSE
+  StartConnected = TRUE
   Grid = 0
   TrackKA = FALSE
   SubKinds = {"A"}
